@@ -213,10 +213,43 @@ MUTANTS = [
                     }""")]),
     dict(id="c21-revert-inline-cast", checks=["C21"], expect="caught",
          note="F-C21-5 comes back: a global compiled inline is not cast to the global's type",
-         edits=[(FUNCTIONS, """                self.cast(res, self.tys[self.loc][body], sig_ty)
-            };""", """                let _ = sig_ty;
-                res
+         edits=[(FUNCTIONS, """                } else {
+                    self.cast(res, self.tys[self.loc][body], sig_ty)
+                }
+            };""", """                } else {
+                    res
+                }
             };""")]),
+    dict(id="c20-revert-inline-address", checks=["C20"], expect="caught",
+         note="F-C20-17 comes back: `^K` of a scalar global that is compiled inline yields the value, not an address",
+         edits=[(FUNCTIONS, "            let res = if no_load && !sig_ty.is_aggregate() {",
+                 "            let res = if false && no_load && !sig_ty.is_aggregate() {")]),
+    dict(id="c20-revert-nested-lambda-args", checks=["C20"], expect="caught",
+         note="F-C20-18 comes back: a function nested in a generic function has one location for all instantiations",
+         edits=[(GLOBALS, """                                let lambda_loc =
+                                    lambda_loc.make_concrete(self.loc.comptime_args());
+
+                                self.init_new_concrete(
+                                    lambda_loc,
+                                    params,
+                                    return_ty_expr,
+                                    lambda_headers.param_tys,
+                                    lambda_headers.return_ty,
+                                );
+
+                                return Err(vec![lambda_loc.wrap()]);
+                            } else {""", """                                let lambda_loc = lambda_loc.make_concrete(None);
+
+                                self.init_new_concrete(
+                                    lambda_loc,
+                                    params,
+                                    return_ty_expr,
+                                    lambda_headers.param_tys,
+                                    lambda_headers.return_ty,
+                                );
+
+                                return Err(vec![lambda_loc.wrap()]);
+                            } else {""")]),
     dict(id="c20-revert-const-data-loc", checks=["C20"], expect="caught",
          note="F-C20-6 comes back: const_data reads the type of `file` in `file.name` at the starting location",
          edits=[(GLOBALS, """            } => match self.tys[loc][*previous].as_ref() {
